@@ -5,7 +5,8 @@ from trees import *
 RULE = ("seeded random nested formulas over boolean leaves from All/Any/AtLeast(k, implicit and explicit sign)/AtMost/Xor/"
         "ExactlyOne/XNor/Imply/Not (depth<=3 quick / <=4 thorough; thorough adds every formula with <=2 connectives over "
         "2 leaves); each is built by the direct constructors, by plog.from_json from its JSON form, and (rule-shaped ones) by "
-        "Imply.from_cicJE; built trees compared structurally with the model's `build`; oracle: full truth table (<=6 leaves) "
+        "Imply.from_cicJE (default component mapping, cmp2prop returning id strings / variables, ids under another key via id_ident); "
+        "AtLeast/AtMost receive their propositions as list / tuple / generator / iterator / map; built trees compared structurally with the model's `build`; oracle: full truth table (<=6 leaves) "
         "against an independent truth function; non-trivial = at least one nested connective")
 ASSUMPTIONS = ["AtLeast(k) with k<=0 and no explicit sign means -(sum) >= k by the constructor's documented sign rule (DESIGN §4 C04)",
                "validated models with pairwise distinct arguments"]
@@ -70,6 +71,16 @@ def has_explicit_sign(a):
         any(has_explicit_sign(a[k]) for k in ("arg", "cond", "cons") if k in a)
 
 
+def ast_leaves(a, out=None):
+    out = set() if out is None else out
+    if a["c"] in ("var", "str"):
+        out.add(a["id"])
+    for x in a.get("args", []): ast_leaves(x, out)
+    for k in ("arg", "cond", "cons"):
+        if k in a: ast_leaves(a[k], out)
+    return out
+
+
 def nested(a):
     kids = a.get("args", []) + [a[k] for k in ("arg", "cond", "cons") if k in a]
     return any(k["c"] not in ("var", "str") for k in kids)
@@ -84,6 +95,9 @@ def do_case(ctx, inp):
     lv = leaves_of(t)
     ctx.case(inp, nontrivial=nested(a), tags=tags_of(t) | {"via-constructors"})
     ctx.op({"op": "build", "ast": a}, {"t": t})
+    if set(lv) != ast_leaves(a):
+        ctx.fail("built-model-lost-or-gained-leaves", {"expression_leaves": sorted(ast_leaves(a)), "model_leaves": sorted(lv), "model": t})
+        return
     table = list(all_assignments(lv)) if len(lv) <= 6 else assignments(ctx.rng, lv, 64)
     for s in table:
         want = truth(a, s)
@@ -131,9 +145,9 @@ def gen_cic(rng):
     return d
 
 
-def cic_ast(d):
-    """the constructor calls from_cicJE makes"""
-    def var(c): return {"c": "var", "id": c["id"], "lo": 0, "hi": 1}
+def cic_ast(d, mode="default"):
+    """the constructor calls from_cicJE makes (mode "str": cmp2prop returns the bare id string)"""
+    def var(c): return {"c": "str", "id": c["id"]} if mode == "str" else {"c": "var", "id": c["id"], "lo": 0, "hi": 1}
     def wid(a, i):
         if i is not None: a["id"] = i
         return a
@@ -174,8 +188,24 @@ def cic_truth(d, s):
 
 def do_cic(ctx, inp):
     d = inp["cic"]
+    mode = inp.get("mode", "default")
     try:
-        o = pg.Imply.from_cicJE(copy.deepcopy(d))
+        if mode == "str":
+            o = pg.Imply.from_cicJE(copy.deepcopy(d), cmp2prop=lambda x: x["id"])
+        elif mode == "ident":
+            # ids under another key, read through id_ident
+            def rekey(x):
+                if isinstance(x, dict):
+                    y = {k: rekey(v) for k, v in x.items()}
+                    if set(y) == {"id"}: y = {"code": y["id"]}
+                    return y
+                if isinstance(x, list): return [rekey(v) for v in x]
+                return x
+            o = pg.Imply.from_cicJE(rekey(copy.deepcopy(d)), id_ident="code")
+        elif mode == "var":
+            o = pg.Imply.from_cicJE(copy.deepcopy(d), cmp2prop=lambda x: puan.variable(x["id"]))
+        else:
+            o = pg.Imply.from_cicJE(copy.deepcopy(d))
     except Exception as e:
         ctx.skip(f"from_cicJE raised {type(e).__name__}")
         return
@@ -183,8 +213,8 @@ def do_cic(ctx, inp):
     if not well_formed(t) or o.errors():
         ctx.skip("cic-rule-not-validated")
         return
-    ctx.case(inp, nontrivial="condition" in d and bool(d["condition"].get("subConditions")), tags=tags_of(t) | {"via-from_cicJE"})
-    ctx.op({"op": "build", "ast": cic_ast(d)}, {"t": t}, label="build-from_cicJE")
+    ctx.case(inp, nontrivial="condition" in d and bool(d["condition"].get("subConditions")), tags=tags_of(t) | {"via-from_cicJE", "cic-mode-" + mode, "cic-rule-" + d["consequence"]["ruleType"]})
+    ctx.op({"op": "build", "ast": cic_ast(d, mode)}, {"t": t}, label="build-from_cicJE")
     lv = leaves_of(t)
     for s in all_assignments(lv):
         want = cic_truth(d, s)
@@ -228,7 +258,7 @@ def run(ctx):
         a, o, t = gen_valid(ctx.rng, ctx.quick, classes=PLOG, bool_only=True)
         do_case(ctx, {"ast": a})
     for _ in range(n // 2):
-        do_case(ctx, {"cic": gen_cic(ctx.rng)})
+        do_case(ctx, {"cic": gen_cic(ctx.rng), "mode": ctx.rng.choice(["default", "default", "str", "ident", "var"])})
     if not ctx.quick and not ctx.search:
         for a in small_scope():
             try:
